@@ -707,7 +707,8 @@ def model_line(case):
     if case.get('multi'):
         return None
     tree = _rig.parse(text_of(case))
-    return dumps([Sym('c06'), G.ctx_sexp(case['home']), oal_sexp.encode(tree)])
+    return dumps([Sym('c06'), G.ctx_sexp(case['home']), oal_sexp.encode(tree),
+                  [[k, v] for k, v in sorted(G.event_meanings().items())]])
 
 
 def model_obs(case, ans):
